@@ -139,6 +139,18 @@ def run(rep: Report, tier: str) -> None:
                                         f"{t} column of a CSV file: is read as {csv_type}, a binary float with 53 significant bits, and then cast to {tbl}: a value with more than "
                                         f"15-17 significant digits (e.g. {'9007199254740993' if t == 'Integer' else '123456789012345678'}) is stored as a neighbouring value, "
                                         f"and two distinct identifiers collapse into a duplicate, while the DataFrame and Parquet forms keep the value exact"))
+            if t == "Integer" and nullable:
+                # an Integer handed over in an exact integer column (int64 / Int64 DataFrame column, native Parquet) never passes through a binary float
+                sqlb = df_sqls["BIGINT"]
+                rep.instance("R18.6", "carrier/Integer/dataframe-BIGINT", nontrivial=True, sample={"source_type": "BIGINT", "sql": " ".join(sqlb.split())[:200]})
+                fl = re.findall(r'(?:AS\s+|::\s*)(DOUBLE|FLOAT|REAL|FLOAT4|FLOAT8)\b', re.sub(r"THEN\s+error\(.*?\)\s+ELSE", "THEN error() ELSE", sqlb, flags=re.I | re.S), re.I)
+                # a float used only inside a rejecting test is harmless; a float on the way to the stored value is not: look at the value branch (after the last ELSE, or the whole expression)
+                value_part = sqlb[sqlb.upper().rfind(" ELSE ") + 6:] if " ELSE " in sqlb.upper() else sqlb
+                if re.search(r'(?:AS\s+|::\s*)(DOUBLE|FLOAT|REAL|FLOAT4|FLOAT8)\b', value_part, re.I):
+                    rep.add(Finding("R18.6", "R18.6/carrier/Integer/dataframe-BIGINT", f_df.module.rel, f_df.node.lineno, f_df.qualname,
+                                    f"Integer component from a BIGINT source column (int64 DataFrame column / native Parquet) is stored through `{' '.join(value_part.split())[:120]}`: the value passes "
+                                    f"through a binary float with 53 significant bits, so 9007199254740993 is stored as 9007199254740992 and two distinct identifiers collapse, while the same "
+                                    f"values given as text keep all their digits"))
             if t == "Number":
                 for st, sql in df_sqls.items():
                     rep.instance("R18.3", f"Number/source={st}", nontrivial=True, sample={"source_type": st, "sql": sql})
@@ -364,3 +376,25 @@ def fetch_time_format(P: Program, rep: Report, rule: str) -> None:
                             f"{c_} is rendered {'with' if got_t else 'without'} a time part (`{txt[:90]}`); each column must be decided by its own content - a dropped fraction is a different "
                             f"instant, and the CSV loader stores every Date column as TIMESTAMP, so the same table given as CSV and as a DataFrame would otherwise come back as "
                             f"`2020-05-05T00:00:00` and `2020-05-05`"))
+
+
+def integer_carrier_exact(P: Program, rep: Report, rule: str) -> None:
+    """An Integer component handed over in an exact integer column (int64 DataFrame column, native Parquet) reaches the table without passing
+    through a binary float (the SQL the DataFrame loader generates is evaluated from its source and its value branch inspected).  Shared
+    with C01: every scalar operator works on the loaded value, so 2**53+1 loaded as 2**53 makes `DS_1 + 1` and `DS_1 = DS_2` wrong."""
+    f_df = P.func(f"{IO}._build_dataframe_select_columns")
+    n = 0
+    for st in ("BIGINT", "INTEGER", "UBIGINT", "HUGEINT"):
+        comp = ExternalObj({"role": "Measure", "nullable": True, "data_type": ClassVal("vtlengine.DataTypes.Integer"), "name": "C"})
+        try:
+            sqlb = Interp(P, externals={"get_decimal_type": lambda: "DECIMAL(28,10)"}).call(f_df, {"components": {"C": comp}, "df_columns": ["C"], "source_types": {"C": st}})[0]
+        except Raised as r:
+            raise AnalysisError(f"{rule}: _build_dataframe_select_columns raised {r.exc} for Integer/{st}")
+        n += 1
+        rep.instance(rule, f"carrier/Integer/{st}", nontrivial=True, sample={"source_type": st, "sql": " ".join(sqlb.split())[:200]})
+        value_part = sqlb[sqlb.upper().rfind(" ELSE ") + 6:] if " ELSE " in sqlb.upper() else sqlb
+        if re.search(r'(?:AS\s+|::\s*)(DOUBLE|FLOAT|REAL|FLOAT4|FLOAT8)\b', value_part, re.I):
+            rep.add(Finding(rule, f"{rule}/carrier/Integer/{st}", f_df.module.rel, f_df.node.lineno, f_df.qualname,
+                            f"Integer component from a {st} source column is stored through `{' '.join(value_part.split())[:120]}`: the value passes through a binary float with 53 "
+                            f"significant bits, so 9007199254740993 is loaded as 9007199254740992 - `DS_1 + 1`, `DS_1 = DS_2` and identifier matching then work on a neighbouring value"))
+    rep.floor(f"{rule} integer source types", n, 4)
